@@ -7,6 +7,7 @@ from typing import TYPE_CHECKING, Any
 
 from hypergraph.nodes.base import _EMIT_SENTINEL
 from hypergraph.runners._shared.types import PauseExecution, PauseInfo
+from hypergraph.runners.async_.superstep import get_concurrency_limiter
 
 if TYPE_CHECKING:
     from hypergraph.nodes.interrupt import InterruptNode
@@ -41,14 +42,14 @@ class AsyncInterruptNodeExecutor:
             result = {o: state.values[o] for o in data_outputs}
             return _add_emit_sentinels(result, node)
 
-        # Handler path: invoke the function
-        try:
-            params = node.map_inputs_to_params(input_values)
-            response = node.func(**params)
-            if isawaitable(response):
-                response = await response
-        except Exception as e:
-            raise RuntimeError(f"Handler for InterruptNode '{node.name}' failed: {type(e).__name__}: {e}") from e
+        # Handler path: invoke the function (under the shared concurrency
+        # limiter, like any other node function)
+        semaphore = get_concurrency_limiter()
+        if semaphore:
+            async with semaphore:
+                response = await _call_handler(node, input_values)
+        else:
+            response = await _call_handler(node, input_values)
 
         # None return means "pause"
         if response is not None:
@@ -67,6 +68,18 @@ class AsyncInterruptNodeExecutor:
                 values=input_values if len(node.inputs) > 1 else None,
             )
         )
+
+
+async def _call_handler(node: InterruptNode, input_values: dict[str, Any]) -> Any:
+    """Invoke the interrupt handler, awaiting it if needed."""
+    try:
+        params = node.map_inputs_to_params(input_values)
+        response = node.func(**params)
+        if isawaitable(response):
+            response = await response
+    except Exception as e:
+        raise RuntimeError(f"Handler for InterruptNode '{node.name}' failed: {type(e).__name__}: {e}") from e
+    return response
 
 
 def _normalize_response(
